@@ -405,7 +405,7 @@ static const int32 ENC_D = MUSCLE_MESSAGE_ENCODING_DEFAULT;
 static int32 ENC_Z(int level) { return MUSCLE_MESSAGE_ENCODING_ZLIB_1 + level - 1; }
 static std::string EncName(int32 e) { return e == ENC_D ? "default" : verif::Fmt("zlib%d", (int)(e - MUSCLE_MESSAGE_ENCODING_ZLIB_1 + 1)); }
 static std::vector<std::string> SV(const char * a = NULL, const char * b = NULL, const char * c = NULL) { std::vector<std::string> v; if (a) v.push_back(a); if (b) v.push_back(b); if (c) v.push_back(c); return v; }
-static std::string Bytes(const char * s, size_t n) { return std::string(s, n); }
+#define BL(lit) std::string(lit, sizeof(lit) - 1)   /* byte literal that may contain NULs */
 
 struct NamedSeq { const char * name; std::vector<MsgSpec> msgs; };
 static std::vector<NamedSeq> BinarySequences()
@@ -469,8 +469,8 @@ static void BuildScenarios(bool thorough, std::vector<Scenario> & bin, std::vect
       const uint32 mins[] = {0, 4, 0}, maxs[] = {MUSCLE_NO_LIMIT, MUSCLE_NO_LIMIT, 3};
       for (int m = 0; m < 3; m++) {
          Scenario s; s.kind.id = K_RAW; s.kind.minChunk = mins[m]; s.kind.maxChunk = maxs[m]; s.kind.name = verif::Fmt("raw[min=%u,max=%s]", mins[m], maxs[m] == MUSCLE_NO_LIMIT ? "none" : "3");
-         std::vector<std::string> a; a.push_back(Bytes("ab\xC0", 3)); a.push_back(Bytes("\xDB", 1)); s.out.items.push_back(a);
-         std::vector<std::string> b; b.push_back(""); b.push_back(Bytes("cd\0fg\xDC\xDD", 7)); s.out.items.push_back(b);
+         std::vector<std::string> a; a.push_back(BL("ab\xC0")); a.push_back(BL("\xDB")); s.out.items.push_back(a);
+         std::vector<std::string> b; b.push_back(""); b.push_back(BL("cd\0fg\xDC\xDD")); s.out.items.push_back(b);
          s.out.items.push_back(SV()); s.out.items.push_back(SV("h"));
          s.name = s.kind.name + " chunks with END/ESC bytes, a NUL, a zero-length chunk, a Message without chunks"; raw.push_back(s);
       }
@@ -478,11 +478,11 @@ static void BuildScenarios(bool thorough, std::vector<Scenario> & bin, std::vect
    // ---- SLIP gateway
    {
       Scenario s; s.kind.id = K_SLIP; s.kind.name = "slip";
-      std::vector<std::string> a; a.push_back(Bytes("A\xC0" "B", 3)); a.push_back(Bytes("\xDB\xDC", 2)); s.out.items.push_back(a);
-      std::vector<std::string> b; b.push_back(""); b.push_back(Bytes("\xDD", 1)); s.out.items.push_back(b);
+      std::vector<std::string> a; a.push_back(BL("A\xC0" "B")); a.push_back(BL("\xDB\xDC")); s.out.items.push_back(a);
+      std::vector<std::string> b; b.push_back(""); b.push_back(BL("\xDD")); s.out.items.push_back(b);
       s.out.items.push_back(SV("xyz")); s.out.items.push_back(SV()); s.out.items.push_back(SV("\xC0\xC0\xDB"));
       s.name = "slip frames with END/ESC/ESC_END/ESC_ESC bytes, an empty frame, a Message without frames"; slip.push_back(s);
-      Scenario r; r.kind.id = K_SLIP; r.kind.name = "slip[receiver]"; r.extraRx = Bytes("\xC0\xC0" "A\xDB\xC0" "B\xDB" "A\xDB\xDB\xDC\xC0\xDB\xDD\xDC\xC0" "C\xDB", 20); r.name = "slip receiver: ESC before END, ESC before an ordinary byte, ESC ESC, double END, stream ending inside an escape"; slip.push_back(r);
+      Scenario r; r.kind.id = K_SLIP; r.kind.name = "slip[receiver]"; r.extraRx = BL("\xC0\xC0" "A\xDB\xC0" "B\xDB" "A\xDB\xDB\xDC\xC0\xDB\xDD\xDC\xC0" "C\xDB"); r.name = "slip receiver: ESC before END, ESC before an ordinary byte, ESC ESC, double END, stream ending inside an escape"; slip.push_back(r);
    }
 }
 
@@ -806,7 +806,7 @@ static bool BuildPlan(Plan & P, const verif::Args & args, verif::Result & res, s
 struct RawProduct {
    std::vector<Kind> kinds; Outgoing og; std::string ref; uint32 B;
    void Setup() { const uint32 mins[] = {0, 3, 0}, maxs[] = {MUSCLE_NO_LIMIT, MUSCLE_NO_LIMIT, 2}; for (int m = 0; m < 3; m++) { Kind k; k.id = K_RAW; k.minChunk = mins[m]; k.maxChunk = maxs[m]; kinds.push_back(k); }
-      std::vector<std::string> a; a.push_back(Bytes("\xC0\xDB", 2)); a.push_back(""); a.push_back("a"); og.items.push_back(a); og.items.push_back(SV()); og.items.push_back(SV("bcd", "e")); RefEncode(kinds[0], og, ref); B = (uint32)ref.size(); }
+      std::vector<std::string> a; a.push_back(BL("\xC0\xDB")); a.push_back(""); a.push_back("a"); og.items.push_back(a); og.items.push_back(SV()); og.items.push_back(SV("bcd", "e")); RefEncode(kinds[0], og, ref); B = (uint32)ref.size(); }
    uint64_t Count() const { return (uint64_t)kinds.size() << (B - 1); }   // case = (mode, write mask); inside: every read mask
    void Run(uint64_t i, mutx::Case & c) const
    {
